@@ -177,6 +177,41 @@ def run_dt(job):
     return out
 
 
+def bath_dynamics_job(job):
+    """Numerical (not decided by the specification): bath-mode occupation and two-time bath correlations
+    of a pure-dephasing model against the displaced-oscillator closed form, for every order of the
+    requests (the system-correlation matrix is extended incrementally between requests)."""
+    import oqupy
+    from oqupy import bath_dynamics
+    order, temp = job
+    sz = np.diag([0.5, -0.5])
+    corr = oqupy.PowerLawSD(alpha=0.3, zeta=1.0, cutoff=2.0, cutoff_type="exponential", temperature=temp)
+    bath = oqupy.Bath(sz, corr)
+    params = oqupy.TempoParameters(dt=0.1, epsrel=1e-9, dkmax=None)
+    pt = oqupy.PtTempo(bath, 0.0, 0.81, params).get_process_tensor(progress_type="silent")
+    b = bath_dynamics.TwoTimeBathCorrelations(oqupy.System(0.7 * np.diag([1.0, -1.0])), bath, pt,
+                                              initial_state=np.array([[0.6, 0.3], [0.3, 0.4]]))
+    w = 1.3
+    jw = corr.spectral_density(w)
+
+    def alpha(t):          # displacement of the mode: g O int_0^t exp(-i w (t - s)) ds, O = 1/2
+        return -1j * np.sqrt(jw) * 0.5 * (1 - np.exp(-1j * w * t)) / (1j * w)
+    out = []
+    for req in order:
+        if req == "occ":
+            t, occ = b.occupation(w, change_only=True, progress_type="silent")
+            ref = jw * 0.25 * 2 * (1 - np.cos(w * t)) / w ** 2
+            if np.max(np.abs(occ - ref)) > 1e-7:
+                out.append({"what": "occupation", "err": float(np.max(np.abs(occ - ref)))})
+        else:
+            t1, t2 = req
+            c = b.correlation(w, t1, time_2=t2, change_only=True, progress_type="silent")
+            ref = np.conj(alpha(t2)) * alpha(t1)
+            if abs(c - ref) > 1e-7:
+                out.append({"what": "bath-correlation", "times": [t1, t2], "err": float(abs(c - ref))})
+    return out
+
+
 def spec_sets(n, rich):
     ints = '{[k |-> "int", v |-> x] : x \\in 0..%d}' % (n + 1)
     qs = sorted({4 * i + o for i in range(n + 1) for o in (-1, 0, 1)} - {-1})
@@ -267,12 +302,20 @@ def run(ctx):
         for x in mm:
             key = "C07:dt:%s:%s" % ("pt-has-none" if j[0] is None else "pt-has-different-dt", x["what"])
             ctx.violation(key, "%s: %s" % (j, x), {"dt_job": list(j)})
+    # ---- bath dynamics derived from system correlations (numerical cross-check)
+    import itertools
+    reqs = ["occ", (0.2, 0.4), (0.4, 0.8)]
+    bjobs = [(list(p), temp) for p in itertools.permutations(reqs) for temp in (0.0, 0.8)]
+    for j, mm in zip(bjobs, core.pmap(bath_dynamics_job, bjobs)):
+        ctx.case({"bath_dynamics_requests": [str(x) for x in j[0]], "T": j[1]}, nontrivial=True)
+        for x in mm:
+            ctx.violation("C07:bath-dynamics:%s" % x["what"], "%s: %s" % (j, x), {"bath_dynamics": [[str(r) for r in j[0]], j[1]]})
     ctx.rule = ("tuples of time specifications enumerated by TLC (Correlations.tla; all pairs of %d-ish specifications for two "
                 "operators - every %dth pair replayed in this tier - and all triples of 8 for three operators) on ancilla "
                 "process tensors with memory; non-trivial = result contains at least one NaN entry" % (112, stride))
     ctx.exhaustive = not quick
     ctx.assumptions += ["operators are diagonal with Gaussian-prime entries (values identify the time tuple; checked)",
-                        "bath-occupation closed forms of bath_dynamics.py are numerical and not covered"]
+                        "bath occupations / two-time bath correlations (bath_dynamics.py): numerical cross-check against the displaced-oscillator closed form for a pure-dephasing model (1e-7), all request orders"]
 
 
 def replay(ctx, rep):
